@@ -581,7 +581,18 @@ def fixed_decode() -> list:
     return out
 
 
+def _tagged(prefix: str, fn):
+    """evidence classes of the two engines are kept apart (enc:flow-vpn / dec:flow-vpn)"""
+
+    def run(case: dict) -> dict:
+        info = fn(case)
+        info['classes'] = [f'{prefix}:{c}' for c in info.get('classes', [])]
+        return info
+
+    return run
+
+
 ENGINES = [
-    Engine('encode', model.rules, check_encode, quick=1100, thorough=30000, batch=275, fixed_cases=fixed_encode),
-    Engine('decode', model.wire_rules, check_decode, quick=1100, thorough=30000, batch=275, fixed_cases=fixed_decode),
+    Engine('encode', model.rules, _tagged('enc', check_encode), quick=1100, thorough=30000, batch=275, fixed_cases=fixed_encode),
+    Engine('decode', model.wire_rules, _tagged('dec', check_decode), quick=1100, thorough=30000, batch=275, fixed_cases=fixed_decode),
 ]
